@@ -164,6 +164,25 @@ def _query_and_register_enum():
     return prettyprinter.is_registered(Color, check_superclasses=True, check_deferred=True, register_deferred=True)
 
 
+class Reent:
+    """no printer of its own; its __repr__ re-enters the package (as `__repr__ = pretty_repr` classes and logging helpers do)"""
+    def __init__(self, payload):
+        self.payload = payload
+
+    def __repr__(self):
+        return 'Reent(%s)' % prettyprinter.pformat(self.payload)
+
+
+def _query_and_register_uuid():
+    return prettyprinter.is_registered(uuid.UUID, check_superclasses=True, check_deferred=True, register_deferred=True)
+
+
+SCENARIOS.update({
+    # the public is_registered(..., register_deferred=True) promotes a pending by-name printer itself: racing with a first print of that type
+    'S16-public-is_registered-promotes-while-other-prints': ([[('call', _query_and_register_enum), (Color.RED, {})], [([Color.RED], {}), (Color.RED, {})]], (PKG,) + STDLIB_FILES, False),
+    'S18-repr-that-reenters-pformat-vs-first-print': ([[(Reent(U), {}), ([Reent([1, 2])], {})], [(U, {}), (Color.RED, {})]], (PKG,), False),
+    'S17-public-is_registered-promotes-uuid-while-other-prints': ([[('call', _query_and_register_uuid)], [(U, {}), ([U], {})]], (PKG,), False),
+})
 OP_POOL = [
     (U, {}), ([U, U], {}), ({'k': U}, {'width': 20}), (Color.RED, {}), ([Color.RED], {}), (pathlib.PurePosixPath('/a/b c'), {}),
     (pathlib.PureWindowsPath('C:/x'), {}), (PART, {}), ([PART], {}), (MPROXY, {}), (MyList([1, U]), {}), (Sub(2), {}), (Base(3), {}),
